@@ -648,7 +648,7 @@ outerLoop:
 	}
 	var cumsum pr.Float
 	for i, percentage := range intrinsicPercentages {
-		u := pr.Min(percentage, 100-cumsum)
+		u := pr.Max(0, pr.Min(percentage, 100-cumsum))
 		cumsum += percentage
 		intrinsicPercentages[i] = u
 	}
